@@ -3,7 +3,7 @@
 
    Model: Format.v (format.go + multiline.go, function by function) over the
    formatter's view of the tree, FmtAst.v (nodes + the comments / wss /
-   multiline side tables).  [format false] is the code as it is, [format true]
+   multiline side tables).  [format no_fixes] is the code as it is, [format all_fixes]
    the code with the repairs proposed for C07; both satisfy C06.
 
    What is proved here is the formatter half of the property, for ALL trees and
@@ -23,7 +23,7 @@ From EvyV Require Import Base FmtAst Format FormatProofs.
 Import ListNotations.
 Open Scope N_scope.
 
-Theorem C06_format_emits_tree_tokens : forall (fixed : bool) (p : fprog),
+Theorem C06_format_emits_tree_tokens : forall (fixed : fixes) (p : fprog),
   wf_prog p = true ->
   strip_ws (format fixed p) = List.concat (tokens_of_ast p).
 Proof. exact format_emits_tree_tokens. Qed.
@@ -31,18 +31,18 @@ Print Assumptions C06_format_emits_tree_tokens.
 
 (* without any hypothesis: the token-carrying pieces written by the formatter
    are, one by one and in order, the tokens of the tree (comments included) *)
-Theorem C06_written_tokens_are_the_tree_tokens : forall (fixed : bool) (p : fprog),
+Theorem C06_written_tokens_are_the_tree_tokens : forall (fixed : fixes) (p : fprog),
   toks (fmt_prog fixed p) = tokens_of_ast p.
 Proof. exact fmt_prog_toks. Qed.
 Print Assumptions C06_written_tokens_are_the_tree_tokens.
 
 (* every expression / statement separately, at every indentation level *)
-Theorem C06_expr_tokens : forall (fixed : bool) (e : fexpr) (lvl : nat),
+Theorem C06_expr_tokens : forall (fixed : fixes) (e : fexpr) (lvl : nat),
   toks (fmt_expr fixed lvl e) = expr_tokens e.
 Proof. exact toks_expr. Qed.
 Print Assumptions C06_expr_tokens.
 
-Theorem C06_stmt_tokens : forall (fixed : bool) (s : fstmt) (lvl : nat),
+Theorem C06_stmt_tokens : forall (fixed : fixes) (s : fstmt) (lvl : nat),
   toks (fmt_stmt fixed lvl s) = stmt_tokens s.
 Proof. exact toks_stmt. Qed.
 Print Assumptions C06_stmt_tokens.
@@ -73,17 +73,17 @@ Example C06_example_wf : wf_prog C06_example = true.
 Proof. vm_compute. reflexivity. Qed.
 
 Example C06_example_text :
-  format false C06_example =
+  format no_fixes C06_example =
   s_ "x := [1 // one"%string ++ k_nl ++ s_ "    2"%string ++ k_nl ++ s_ "] // c"%string ++ k_nl ++
   s_ "if x[0] > 0 // c1"%string ++ k_nl ++ s_ "    print ""a b"" 6/2"%string ++ k_nl ++ s_ "end"%string ++ k_nl.
 Proof. vm_compute. reflexivity. Qed.
 
 Example C06_example_stripped :
-  strip_ws (format false C06_example) = s_ "x:=[1// one2]// cifx[0]>0// c1print""a b""6/2end"%string.
+  strip_ws (format no_fixes C06_example) = s_ "x:=[1// one2]// cifx[0]>0// c1print""a b""6/2end"%string.
 Proof. vm_compute. reflexivity. Qed.
 
 (* the hypothesis is not idle: a "name" holding a blank is not a token *)
 Example C06_wf_needed :
   let p := [SInferredDecl (s_ "x"%string) (FVar (s_ "a b"%string)) []] in
-  wf_prog p = false /\ strip_ws (format false p) <> List.concat (tokens_of_ast p).
+  wf_prog p = false /\ strip_ws (format no_fixes p) <> List.concat (tokens_of_ast p).
 Proof. vm_compute. split; [reflexivity | discriminate]. Qed.
